@@ -407,3 +407,39 @@ def run_program(src: str, kind: str, choices: List[int], observer: Callable[[Wor
         except BaseException:
             pass
     return w
+
+
+# ---------------------------------------------------------------------------------------------
+# the exception-table leg shared by C01 and C02 (model: lean/SSModel/ExcTable.lean)
+# ---------------------------------------------------------------------------------------------
+
+def table_facts(code) -> dict:
+    """What the real parser says about the code object's exception table, plus the two shape facts the theorems
+    assume, computed here from `dis`'s independent decoder (exclusive ends)."""
+    import dis
+
+    from stackscope._lowlevel import _parse_exception_table
+
+    views = [list(v) for v in _parse_exception_table(code)]
+    ents = dis._parse_exception_table(code)
+    disjoint = all(e.start < e.end for e in ents) and all(a.end <= b.start for a, b in zip(ents, ents[1:]))
+    forward = all(e.target >= e.end for e in ents)
+    return {"bytes": list(code.co_exceptiontable), "views": views, "disjoint": disjoint, "forward": forward}
+
+
+def table_model_line(facts: dict, points: List[Tuple[int, bool]]) -> str:
+    import json
+
+    return json.dumps({"p": "C01", "bytes": facts["bytes"], "points": [[p, r] for p, r in points]})
+
+
+def table_expected(facts: dict, points: List[Tuple[int, bool, Any, Optional[int]]]) -> str:
+    """The driver's output format, filled from what the real code reported."""
+    b = lambda x: "T" if x else "F"
+    head = " ".join(f"{s}:{e}:{t}:{d}:{b(l)}" for s, e, t, d, l in facts["views"])
+    head += f" | disjoint={b(facts['disjoint'])} forward={b(facts['forward'])} enc=T"
+    pts = []
+    for lasti, running, blocks, depth in points:
+        bl = "[" + ",".join(f"{h}/{l}" for h, l in blocks) + "]"
+        pts.append(f"{lasti}:{bl}:{depth}" if running else f"{lasti}:{bl}")
+    return head + " | " + " ".join(pts)
